@@ -13,14 +13,51 @@ func shapesOf(a int) []string {
 	if a != 1 && a != 3 {
 		s = append(s, "a")
 	}
-	if a == 4 || a == 5 {
+	if a == 4 || a == 5 || a == 8 {
 		s = append(s, "u", "n")
 	}
 	return s
 }
 
+// (m, n) of the account's script
+func mnOf(a int) (int, int) {
+	switch a {
+	case 4:
+		return 2, 3
+	case 5:
+		return 2, 2
+	case 8:
+		return 2, 4
+	}
+	return 1, 1
+}
+
+// snSuffix: for a multi-signature account, how many signatures the set carries: exactly m (often left implicit), something
+// strictly between m and n, or all n
+func snSuffix(r *hx.Rand, a int) string {
+	m, n := mnOf(a)
+	if n == 1 {
+		return ""
+	}
+	switch r.Intn(4) {
+	case 0:
+		return ""
+	case 1:
+		return fmt.Sprintf(".%d", m)
+	case 2:
+		return fmt.Sprintf(".%d", n)
+	}
+	if n-m >= 2 {
+		return fmt.Sprintf(".%d", m+1+r.Intn(n-m-1))
+	}
+	return fmt.Sprintf(".%d", n)
+}
+
 func genSigner(r *hx.Rand, canonBias int) (int, string) {
 	a := r.Intn(nAcct)
+	if r.Chance(25) { // multi-signature accounts are a third of the table; make them half of the signers
+		a = []int{4, 5, 8}[r.Intn(3)]
+	}
 	if r.Chance(canonBias) {
 		if a == 3 { // the Ethereum-type key is never canonical
 			a = r.Intn(3)
@@ -51,6 +88,7 @@ func gen(r *hx.Rand, tier string, i int) string {
 		ntx := 1 + r.Intn(6)
 		for t := 0; t < ntx; t++ {
 			a, sh := genSigner(r, canonBias)
+			sh += snSuffix(r, a)
 			gp := 0
 			if r.Chance(45) {
 				gp = 2500
@@ -63,7 +101,7 @@ func gen(r *hx.Rand, tier string, i int) string {
 					ss := shapesOf(pa)
 					psh = ss[r.Intn(len(ss))]
 				}
-				payer = fmt.Sprintf("%d.%s", pa, psh)
+				payer = fmt.Sprintf("%d.%s%s", pa, psh, snSuffix(r, pa))
 			}
 			switch x := r.Intn(100); {
 			case x < 30:
@@ -119,6 +157,10 @@ func gen(r *hx.Rand, tier string, i int) string {
 }
 
 var corpus = []string{
+	// multi-signature sets carrying more signatures than m: non-payer (a single key pays) and payer, m<sn<n and sn=n, transfers
+	// from the multi-signature account and CheckWitness on it
+	"X ont:4.c.3:1:5:0:0.c;b",
+	"X ont:8.c.3:1:5:2500:0.c;ong:8.c.4:2:7:0:1.c;ont:4.c.3:0:2:2500:-;cwt:8.c.3:8:0:2.c;cwn:8.c.4:8:2500:-;ont:5.c.2:1:1:0:8.c.3;ont:8.c.2:4:1:0:4.c.2;b",
 	// all canonical, every key type, fees, a second signature set paying
 	"X ont:0.c:1:5:0:-;ong:1.c:2:7:2500:-;ont:2.c:6:3:2500:-;ong:6.c:7:9:0:-;ont:7.c:0:1:2500:-;ont:4.c:5:2:2500:-;ong:5.c:4:8:0:0.c;b;cwt:0.c:0:2500:-;cwn:1.c:1:0:-;cwn:2.c:3:0:-;cwt:2.c:3:0:-;b",
 	// C17's four classes, one per block
